@@ -71,6 +71,7 @@ def gen(tier, rng, harness=None):
         if rng.random() < 0.3:
             xs = [rstr(rng) if rng.random() < 0.5 else mutate(rng, a) for _ in range(rng.randint(2, 8))]
             lines.append("nat.sort " + " ".join(hx(x) for x in xs))
+            lines.append("!nat.sorted " + " ".join(hx(x) for x in xs))
         if rng.random() < 0.3:
             p = rstr(rng)
             while p and p[-1:] in b"0123456789":
@@ -94,6 +95,11 @@ def search(ln, a, b, harness, driver):
     from . import common as C
     import random
     args = ln.split()[1:]
+    if ln.startswith("nat.sort"):
+        c = "!nat.sorted " + " ".join(args)
+        x = C.run_lines([harness, "run"], [c])[0]
+        if x.split()[0] in ("FAIL", "panic"):
+            return {"ops": [c], "impl": [x], "model": ["ok"]}
     rng = random.Random(hash(ln) & 0xffffff)
     raws = [bytes.fromhex(x) if x != "-" else b"" for x in args]
     pool = list(raws)
